@@ -259,6 +259,13 @@ def walk_items(S, ts, rel):
                 S.enums.setdefault(name, dict(file=rel, attrs=at, variants=variants))
             i = j + 1
             continue
+        if is_id(t, "fn") and i + 1 < n and ts[i + 1][0] == "id":
+            # a free function: skip its signature (generics may contain `const N: usize`) and its body
+            j = i + 2
+            while j < n and not (ts[j][0] == "grp" and ts[j][1] == "{") and not is_op(ts[j], ";"):
+                j += 1
+            i = j + 1
+            continue
         if is_id(t, "impl"):
             j = i + 1
             if j < n and is_op(ts[j], "<"):
